@@ -173,6 +173,21 @@ def decorate(text, deco, is_stmtlike):
     raise ValueError(deco)
 
 
+def accessor_mismatch(live, ref):
+    """The parse result as the user reads it: every node's lineno / col_offset / end_lineno / end_col_offset through its FST
+    node must be the CPython values (the raw AST attributes are compared separately)."""
+    for a, r in zip(ast.walk(live), ast.walk(ref)):
+        if hasattr(r, 'lineno') and hasattr(a, 'f'):
+            try:
+                got = (a.f.lineno, a.f.col_offset, a.f.end_lineno, a.f.end_col_offset)
+            except Exception as e:  # noqa: BLE001
+                return f'{r.__class__.__name__} at line {r.lineno}: accessor raised {e!r}'
+            want = (r.lineno, r.col_offset, r.end_lineno, r.end_col_offset)
+            if got != want:
+                return f'{r.__class__.__name__}: accessors={got} cpython={want}'
+    return None
+
+
 def pfst_parse(fst, text, mode):
     try:
         f = fst.FST(text, mode)
@@ -198,6 +213,10 @@ def run_program(fst, pi, src, tier, res, neighbourhood):
         return
     if O.dump_pos(f.a) != O.dump_pos(tree):
         res.fail(cidp + 'exec', 'tree-differs-from-cpython', f'src={src!r}\n' + O.first_diff(O.dump_pos(f.a), O.dump_pos(tree)), {}, rep)
+        return
+    bad = accessor_mismatch(f.a, tree)
+    if bad:
+        res.fail(cidp + 'exec', 'position-accessors-differ-from-cpython', f'src={src!r}\n{bad}', {}, rep)
         return
     res.nontriv(pi, 'exec')
     try:
@@ -292,6 +311,11 @@ def run_program(fst, pi, src, tier, res, neighbourhood):
                 if dpos(got) != dpos(want):
                     res.fail(cid, 'fragment-tree-differs-from-embedded-subtree',
                              f'fragment={dtext!r} mode={mode}\nfrom src={src!r}\n' + O.first_diff(dpos(got), dpos(want)),
+                             {'mode': mode, 'deco': deco}, rep)
+                    continue
+                bad = accessor_mismatch(got, want)
+                if bad:
+                    res.fail(cid, 'position-accessors-differ-from-cpython', f'fragment={dtext!r} mode={mode}\n{bad}',
                              {'mode': mode, 'deco': deco}, rep)
                     continue
                 res.nontriv(dtext, mode)
